@@ -125,6 +125,13 @@ func Known(id string, c bool) {}
 
 func Reach(label string) { Reached = append(Reached, label); fmt.Printf("VRT-REACH: %s\n", label) }
 
+// Repeat: how often a native replay repeats a schedule-dependent step (the
+// symbolic run covers every order in one execution and gets 1).
+func Repeat(n int) int { return n }
+
+// PermuteMaps: symbolic-only switch (natively the runtime randomises map order).
+func PermuteMaps(on bool) {}
+
 // MustReach declares that some path of this harness has to Reach(label)
 // (existence obligation, checked by the driver over all explored paths).
 func MustReach(label string) {}
@@ -675,6 +682,9 @@ func FSCleanup() {
 	}
 	fsDirs = map[int]string{}
 }
+
+// Observed: a value the symbolic stubs recorded (natively unavailable: "").
+func Observed(name string) string { return "" }
 
 // SetHasComponents / SetRenderParses steer the symbolic stubs; natively the
 // harness picks real inputs with the same meaning.
